@@ -136,4 +136,14 @@ REGISTRY = {
                        'composition over thread schedules (no lost wake-up, exactly-once, per-thread FIFO) is not mechanised.',
         'not_decided': ['every statement about interleavings: lost wake-ups, cross-thread exactly-once and per-thread order'],
     },
+    'C07': {
+        'modules': ['contracts.core_tree'], 'level': 'proof',
+        'level_text': 'Forest representation invariant with ghost subtree sets (reflexive, transitive, antisymmetric, child<->parent, '
+                      'upward unfolding, root, laminar), each conjunct re-established by register and by the completion of unregister '
+                      'for every forest satisfying the quantifier\'s preconditions; exactly one registered/unregistered; queued events '
+                      'move to the new root. Induction over histories is the standard invariant argument.',
+        'level_note': 'trusted: lemma G8 for the recursive _updateRoot; termination of the recursion (from acyclicity) not proved; '
+                      'handlers as callbacks; one thread.',
+        'explanation': 'forest contracts discharged by z3 (quantified, uninterpreted reference sort)',
+    },
 }
